@@ -11,6 +11,11 @@ from . import norm
 from .norm import Lit
 
 TERMINATORS = (ast.Raise, ast.Return, ast.Continue, ast.Break)
+_RAW = [False]
+
+
+def _cnf(test, pos, ctx):
+    return norm.cnf_raw(test, pos) if _RAW[0] else norm.cnf(test, pos, ctx)
 
 
 def terminates(block: list) -> bool:
@@ -90,12 +95,12 @@ def block_fallthrough(stmts, ctx) -> list[frozenset]:
 def fallthrough(st, ctx) -> list[frozenset]:
     """Clauses that hold after statement st when control falls through it."""
     if isinstance(st, ast.Assert):
-        return norm.cnf(st.test, True, ctx)
+        return _cnf(st.test, True, ctx)
     if isinstance(st, ast.If):
         fb = block_fallthrough(st.body, ctx)
         fe = block_fallthrough(st.orelse, ctx) if st.orelse else []
-        a = FALSE if _is_false(fb) else norm.cnf(st.test, True, ctx) + fb
-        b = FALSE if _is_false(fe) else norm.cnf(st.test, False, ctx) + fe
+        a = FALSE if _is_false(fb) else _cnf(st.test, True, ctx) + fb
+        b = FALSE if _is_false(fe) else _cnf(st.test, False, ctx) + fe
         if not _is_false(fb) and not fb and not _is_false(fe) and not fe:
             return []  # neither branch constrains anything
         return _or_cnf(a, b)
@@ -119,8 +124,15 @@ def handler_types(h: ast.ExceptHandler) -> list[str]:
     return [ast.unparse(e) for e in elts]
 
 
-def pc(node, stop=None) -> list[frozenset]:
-    """CNF path condition of `node` (a statement or expression) inside its function."""
+def pc(node, stop=None, raw: bool = False) -> list[frozenset]:
+    """CNF path condition of `node` (a statement or expression) inside its function.
+    raw=True: literals as written (no substitution of single-definition locals)."""
+    if raw:
+        _RAW[0] = True
+        try:
+            return pc(node, stop, False)
+        finally:
+            _RAW[0] = False
     clauses: list[frozenset] = []
     n = node
     # climb to the statement
@@ -130,12 +142,12 @@ def pc(node, stop=None) -> list[frozenset]:
         if isinstance(par, ast.BoolOp) and n in par.values:
             idx = par.values.index(n)
             for prev in par.values[:idx]:
-                clauses += norm.cnf(prev, isinstance(par.op, ast.And), node)
+                clauses += _cnf(prev, isinstance(par.op, ast.And), node)
         elif isinstance(par, ast.IfExp):
             if n is par.body:
-                clauses += norm.cnf(par.test, True, node)
+                clauses += _cnf(par.test, True, node)
             elif n is par.orelse:
-                clauses += norm.cnf(par.test, False, node)
+                clauses += _cnf(par.test, False, node)
         n = par
     while n is not None and not isinstance(n, (ast.FunctionDef, ast.AsyncFunctionDef, ast.Module, ast.ClassDef, ast.Lambda)):
         if n is stop:
@@ -149,12 +161,12 @@ def pc(node, stop=None) -> list[frozenset]:
         field = getattr(n, "pfield", None)
         if isinstance(parent, ast.If):
             if field == "body":
-                clauses += norm.cnf(parent.test, True, node)
+                clauses += _cnf(parent.test, True, node)
             elif field == "orelse":
-                clauses += norm.cnf(parent.test, False, node)
+                clauses += _cnf(parent.test, False, node)
         elif isinstance(parent, ast.While):
             if field == "body":
-                clauses += norm.cnf(parent.test, True, node)
+                clauses += _cnf(parent.test, True, node)
         elif isinstance(parent, ast.ExceptHandler):
             clauses.append(frozenset([Lit("EXCEPT(" + ", ".join(handler_types(parent)) + ")", True)]))
         elif isinstance(parent, ast.Try) and field == "orelse":
